@@ -295,7 +295,15 @@ class World:
 def replay(src, targets, hist):
     w = World(src, targets)
     for k, ev in enumerate(hist):
-        bad = w.step(ev)
+        try:
+            bad = w.step(ev)
+        except Exception as e:
+            from ..core import from_library
+
+            if not from_library(e):
+                raise
+            cfgs = [v["cfg"] for v in ev.get("als", [])]
+            bad = "%s raised by menpo while the step was executed / its result inspected (configurations %s): %s" % (type(e).__name__, cfgs, str(e)[:120])
         if bad:
             return {"step": k, "op": ev["op"], "a": ev["a"], "o": ev["o"], "v": ev["v"], "what": bad}
     return None
